@@ -207,6 +207,7 @@ func (cb *CellBuffer) Resize(w, h int) {
 			nc.currComb = oc.currComb
 			nc.currStyle = oc.currStyle
 			nc.width = oc.width
+			nc.lock = oc.lock
 			nc.lastMain = rune(0)
 		}
 	}
